@@ -1260,6 +1260,114 @@ def state_cases():
 
 
 # ----------------------------------------------------------------------------------------------
+# prefix x violation matrix (real checker only).  Every rule violation of the property's list is placed in a
+# body AFTER each scope-opening / state-touching expression or statement form (and BEFORE it, as a control), in
+# functions and methods, Result-returning or not.  Differential oracle: the verdict on the violation (an error
+# inside its lines) must be the same as with no prefix at all; a violation that is missed even without prefix
+# must carry a known-finding id.
+
+MX_PRE = """enum E1:
+    K1
+    K2
+
+model M1:
+    a1: int
+    a2: str
+
+def hs(a: int) -> Result[int, str]:
+    return Ok(a)
+
+def hi(a: int) -> Result[int, int]:
+    return Ok(a)
+
+def two(a: int, s: str) -> int:
+    return a
+
+def app(f: (int) -> int, a: int) -> int:
+    return f(a)
+
+"""
+
+# name -> (header, body indent, trailer).  q0: int parameter, every body ends with the trailer's return
+MX_FORMS = {
+    "fn-result": ("def t(q0: int, qe: E1, qo: Option[int]) -> Result[int, str]:\n", 4, "    return Ok(q0)\n"),
+    "fn-int": ("def t(q0: int, qe: E1, qo: Option[int]) -> int:\n", 4, "    return q0\n"),
+    "fn-none": ("def t(q0: int, qe: E1, qo: Option[int]) -> None:\n", 4, "    return\n"),
+    "method-result": ("class C1:\n    c: int\n\n    def t(self, q0: int, qe: E1, qo: Option[int]) -> Result[int, str]:\n", 8, "        return Ok(q0)\n"),
+    "method-int": ("class C1:\n    c: int\n\n    def t(mut self, q0: int, qe: E1, qo: Option[int]) -> int:\n", 8, "        return q0\n"),
+}
+
+MX_PREFIXES = {
+    "none": "",
+    "closure-bound": "k1 = (n) => n * 2\n",
+    "closure-passed": "k2 = app((n) => n + 1, q0)\n",
+    "closure-nested": "k3 = (n) => app((m) => m + n, n)\n",
+    "closure-called": "k4 = ((n) => n + 1)(q0)\n",
+    "closure-in-block": "if q0 > 0:\n    k5 = (n) => n - 1\n",
+    "listcomp": "l1 = [x * x for x in range(q0)]\n",
+    "listcomp-filter": "l2 = [x for x in range(q0) if x % 2 == 0]\n",
+    "dictcomp": "d1 = {x: x + 1 for x in range(q0)}\n",
+    "dictcomp-filter": "d2 = {x: x for x in range(q0) if x > 1}\n",
+    "match-stmt": "match qe:\n    case E1.K1:\n        println(1)\n    case E1.K2:\n        println(2)\n",
+    "match-expr": "m1 = match qo:\n    Some(w) => w\n    None => 0\n",
+    "if-else": "if q0 > 1:\n    println(1)\nelif q0 > 0:\n    println(2)\nelse:\n    println(3)\n",
+    "fstring": "s1 = f\"a{q0 + 1}b{qe == E1.K1}\"\n",
+    "method-call-closure": "l3 = [1, 2]\nl3.append(app((n) => n, 3))\n",
+    "for-closed": "for z in range(q0):\n    mut acc = z\n    acc += 1\n",
+    "while-closed": "mut w1 = q0\nwhile w1 > 0:\n    w1 -= 1\n",
+    "inner-try": "t1 = hs(q0)?\n",
+    "match-guard-binder": "match qo:\n    case Some(w) if w > 1:\n        println(w)\n    case _:\n        println(0)\n",
+}
+
+# name -> (statement text, known finding id when the real checker misses it even without any prefix, forms it applies to)
+MX_VIOLATIONS = {
+    "unknown-name": ("println(nope)", None, None),
+    "wrong-type-assign": ("b1: int = \"s\"", None, None),
+    "wrong-type-reassign": ("mut b2 = 1\nb2 = \"s\"", None, None),
+    "wrong-return": ("if q0 > 5:\n    return \"s\"", None, None),
+    "wrong-arg": ("b3 = two(\"a\", 1)", "arg-unchecked", None),
+    "reassign-immutable": ("b4 = 1\nb4 = 2", None, None),
+    "compound-immutable": ("q0 += 1", None, None),
+    "try-non-result": ("b5 = q0?", None, None),
+    "try-error-type": ("b6 = hi(q0)?", None, ("fn-result", "method-result")),
+    "try-in-nonresult-fn": ("b6 = hi(q0)?", "try-in-nonresult-fn", ("fn-int", "fn-none", "method-int")),
+    "match-missing-variant": ("match qe:\n    case E1.K1:\n        println(1)", None, None),
+    "match-missing-none": ("match qo:\n    case Some(w) if w > 0:\n        println(w)\n    case Some(w):\n        println(0)", None, None),
+    "ctor-missing-field": ("b7 = M1(a1=1)", None, None),
+    "ctor-unknown-field": ("b8 = M1(a1=1, a2=\"s\", zz=3)", None, None),
+    "ctor-duplicate-field": ("b9 = M1(a1=1, a1=2, a2=\"s\")", None, None),
+    "field-unknown": ("b10 = M1(a1=1, a2=\"s\")\nprintln(b10.zz)", None, None),
+}
+
+
+def mx_indent(text, n):
+    return "".join(" " * n + l + "\n" for l in text.split("\n") if l != "")
+
+
+def mx_cases():
+    """list of dict(name, form, prefix, violation, pos, src, lo, hi, kid)"""
+    out = []
+    for fname, (head, ind, tail) in MX_FORMS.items():
+        for vname, (vtxt, kid, only) in MX_VIOLATIONS.items():
+            if only and fname not in only:
+                continue
+            if fname in ("fn-result", "method-result") and vname == "try-in-nonresult-fn":
+                continue
+            for pname, ptxt in MX_PREFIXES.items():
+                if fname in ("fn-int", "fn-none", "method-int") and pname == "inner-try":
+                    continue
+                for pos in (("after",) if pname == "none" else ("after", "before")):
+                    v = mx_indent(vtxt, ind)
+                    pr = mx_indent(ptxt, ind)
+                    body = (pr + v) if pos == "after" else (v + pr)
+                    src = MX_PRE + head + body + tail
+                    lo = len(MX_PRE) + len(head) + (len(pr) if pos == "after" else 0)
+                    out.append({"name": "mx:%s/%s/%s/%s" % (fname, pname, vname, pos), "form": fname, "prefix": pname, "violation": vname,
+                                "pos": pos, "src": src, "lo": lo, "hi": lo + len(v), "kid": kid})
+    return out
+
+
+# ----------------------------------------------------------------------------------------------
 # fixed corpus: the refutation witnesses of Props.v rendered as Incan, and extra observations
 
 def corpus_programs():
@@ -1558,6 +1666,51 @@ def run(chk):
                 continue
         fails.append({"case": name, "edit": name, "construct": src[lo:hi], "why": "ill-typed program accepted / no diagnostic inside the marked construct (checker state family)",
                       "class": ("falls in class %s, not listed as known" % kid) if kid else "NONE", "impl_errors": r["errors"], "source": src})
+
+    # ---- prefix x violation matrix (real checker only): a scope-opening / state-touching form before the
+    # violation must not change the verdict on it
+    mx = mx_cases()
+    valid = [("mx-valid:%s/%s" % (fn_, pn), MX_PRE + hd + mx_indent(pt, ind) + mx_indent("println(q0)", ind) + tl)
+             for fn_, (hd, ind, tl) in MX_FORMS.items() for pn, pt in MX_PREFIXES.items()
+             if not (pn == "inner-try" and fn_ in ("fn-int", "fn-none", "method-int"))]
+    mreal = run_real(binary, [{"main": c["src"], "deps": []} for c in mx] + [{"main": src, "deps": []} for _, src in valid])
+    base = {}
+    for c, r in zip(mx, mreal):
+        c["parse"] = r["parse"]
+        c["errors"] = r.get("errors", [])
+        c["det"] = r["parse"] == "ok" and any(c["lo"] <= e[0] < c["hi"] for e in c["errors"])      # the diagnostic starts inside the violating statement
+        if c["prefix"] == "none":
+            base[(c["form"], c["violation"])] = c["det"]
+    mx_stats = {"cases": len(mx), "detected": 0, "missed_known": 0, "valid_programs": len(valid)}
+    for c in mx:
+        chk.count_case(c["name"], nontrivial=True)
+        k = "mx %s @ %s" % (c["violation"], c["prefix"])
+        dist[k] = dist.get(k, 0) + 1
+        if c["parse"] != "ok":
+            corr_bad.append({"case": c["name"], "why": "matrix case does not parse: %s" % c["errors"][:2], "source": c["src"]})
+            continue
+        b0 = base[(c["form"], c["violation"])]
+        if c["det"]:
+            mx_stats["detected"] += 1
+            continue
+        entry = {"case": c["name"], "edit": c["violation"], "context": "%s, %s the form `%s`" % (c["form"], c["pos"], c["prefix"]),
+                 "construct": c["src"][c["lo"]:c["hi"]], "impl_errors": c["errors"], "source": c["src"], "input": {"main": c["src"], "deps": []}}
+        if b0:
+            entry["why"] = "the violation is reported when nothing precedes it, but accepted / not located when it comes %s `%s`" % (c["pos"], c["prefix"])
+            entry["class"] = "NONE: the verdict on a statement depends on an unrelated form checked in the same body"
+            fails.append(entry)
+        elif c["kid"] and c["kid"] in known:
+            mx_stats["missed_known"] += 1
+            classes[c["kid"]] = classes.get(c["kid"], 0) + 1
+        else:
+            entry["why"] = "ill-typed program accepted / no diagnostic inside the violating statement"
+            entry["class"] = ("falls in class %s, not listed as known" % c["kid"]) if c["kid"] else "NONE"
+            fails.append(entry)
+    for (name, src), r in zip(valid, mreal[len(mx):]):
+        chk.count_case(name, nontrivial=False)
+        if r["parse"] != "ok" or r["errors"]:
+            fails.append({"case": name, "edit": "unedited", "why": "well-typed program rejected (matrix prefix)", "errors": r.get("errors"), "source": src})
+    chk.coverage["prefix_violation_matrix"] = dict(mx_stats, forms=sorted(MX_FORMS), prefixes=sorted(MX_PREFIXES), violations=sorted(MX_VIOLATIONS))
 
     # ---- known findings: replay each witness on the real code
     for fid, f in sorted(known.items()):
